@@ -13,6 +13,11 @@ from .types import Instruction, Label, Assignment, InstructionPointer, WordList,
 from . import reports
 
 
+# Verification hook (off unless PDPY11_VERIF=1): compile_block records
+# (statement, address it was given, chunk it produced, state) per statement.
+_VERIF = __import__("os").environ.get("PDPY11_VERIF") == "1"
+
+
 class Compiler:
     def __init__(self, output_charset="bk"):
         self.symbols = CaseInsensitiveDict()
@@ -54,6 +59,8 @@ class Compiler:
                 if isinstance(insn, Instruction):
                     chunk = self.compile_insn(insn, state)
                     if chunk is not None:
+                        if _VERIF:
+                            self.__dict__.setdefault("verif_trace", []).append((insn, addr, chunk, state))
                         data += chunk
                         if isinstance(chunk, BaseDeferred):
                             addr += chunk.length()
@@ -62,6 +69,8 @@ class Compiler:
 
                 elif isinstance(insn, WordList):
                     chunk = self.compile_word_list(insn, insn.words, state)
+                    if _VERIF:
+                        self.__dict__.setdefault("verif_trace", []).append((insn, addr, chunk, state))
                     data += chunk
                     if isinstance(chunk, BaseDeferred):
                         addr += chunk.length()
@@ -103,6 +112,8 @@ class Compiler:
                                     return b"\x00" * length
 
                                 chunk = Deferred[bytes](fn)
+                                if _VERIF:
+                                    self.__dict__.setdefault("verif_trace", []).append((insn, addr, chunk, state))
                                 data += chunk
                                 if isinstance(chunk, BaseDeferred):
                                     addr += chunk.length()
